@@ -509,7 +509,7 @@ pub enum DecErr {
     Shape(String),
 }
 
-pub const ZERO_WIDTH_LIMIT: i64 = 100_000;
+pub const ZERO_WIDTH_LIMIT: i64 = 256;
 
 pub struct Dec<'a> {
     data: &'a [u8],
